@@ -347,6 +347,25 @@ func (this *partition) removeNode(nodeId uint64) {
 	}
 }
 
+// Brings the replica set to the given one, the way the add/remove node entries that led to it would have
+func (this *partition) setNodes(nodeIds []uint64) {
+	wanted := make(map[uint64]struct{}, len(nodeIds))
+	for _, id := range nodeIds {
+		wanted[id] = struct{}{}
+	}
+	for _, id := range this.nodeIds() {
+		if _, exists := wanted[id]; !exists {
+			this.removeNode(id)
+		}
+	}
+	for _, id := range nodeIds {
+		if !this.isOnNode(id) {
+			this.addNode(id)
+		}
+	}
+	this.meta.NodeIds = append([]uint64{}, nodeIds...)
+}
+
 func (this *partition) proposeAndWaitForCommit(ctx context.Context, proposal *pb.PartitionChange) (interface{}, error) {
 	ctx, cancelCtx := context.WithTimeout(ctx, proposalTimeout)
 	defer cancelCtx()
